@@ -352,6 +352,13 @@ V("C02", "xyz-selection-sorted", "mdtraj/formats/xyzfile.py", "                 
 V("C02", "twin-xyz-read-while-loop", "mdtraj/formats/xyzfile.py", "            for j in range(stride - 1):\n                # throw away these frames\n                try:\n                    self._read()\n                except _EOF:\n                    break",
   "            skipped = 0\n            while skipped < stride - 1:\n                try:\n                    self._read()\n                except _EOF:\n                    break\n                skipped += 1", None)
 V("C02", "gro-time-not-strided", "mdtraj/formats/gro.py", "            time = time[::stride]", "            time = time[: len(coordinates[::stride])]", "C02-R8", "GroTrajectoryFile.read")
+# C01-R9: end to end
+_TRJ9 = "mdtraj/core/trajectory.py"
+V("C01", "save_xyz-conversion-inverted", _TRJ9, "                xyz=in_units_of(self.xyz, Trajectory._distance_unit, f.distance_unit),\n                types=[a.name for a in self.top.atoms],", "                xyz=in_units_of(self.xyz, f.distance_unit, Trajectory._distance_unit),\n                types=[a.name for a in self.top.atoms],", "C01-R9")
+V("C01", "xyz-reader-conversion-dropped", "mdtraj/formats/xyzfile.py", "        in_units_of(xyz, self.distance_unit, Trajectory._distance_unit, inplace=True)\n\n        if stride is None:\n            stride = 1\n        time = (stride * np.arange(len(xyz))) + initial\n        return Trajectory(xyz=xyz, topology=topology, time=time)", "        if stride is None:\n            stride = 1\n        time = (stride * np.arange(len(xyz))) + initial\n        return Trajectory(xyz=xyz, topology=topology, time=time)", "C01-R9")
+V("C01", "xyz-reader-conversion-not-inplace", "mdtraj/formats/xyzfile.py", "        in_units_of(xyz, self.distance_unit, Trajectory._distance_unit, inplace=True)\n\n        if stride is None:\n            stride = 1\n        time = (stride * np.arange(len(xyz))) + initial\n        return Trajectory(xyz=xyz, topology=topology, time=time)", "        in_units_of(xyz, self.distance_unit, Trajectory._distance_unit)\n\n        if stride is None:\n            stride = 1\n        time = (stride * np.arange(len(xyz))) + initial\n        return Trajectory(xyz=xyz, topology=topology, time=time)", "C01-R9")
+V("C01", "twin-xyz-reader-conversion-rebound", "mdtraj/formats/xyzfile.py", "        in_units_of(xyz, self.distance_unit, Trajectory._distance_unit, inplace=True)\n\n        if stride is None:\n            stride = 1\n        time = (stride * np.arange(len(xyz))) + initial\n        return Trajectory(xyz=xyz, topology=topology, time=time)", "        xyz = in_units_of(xyz, self.distance_unit, Trajectory._distance_unit)\n\n        if stride is None:\n            stride = 1\n        time = (stride * np.arange(len(xyz))) + initial\n        return Trajectory(xyz=xyz, topology=topology, time=time)", None)
+V("C01", "save_mdcrd-cell-not-converted", _TRJ9, "                cell_lengths=in_units_of(\n                    self.unitcell_lengths,\n                    Trajectory._distance_unit,\n                    f.distance_unit,\n                ),\n            )\n\n    def save_netcdf", "                cell_lengths=self.unitcell_lengths,\n            )\n\n    def save_netcdf", "C01-R9")
 V("C02", "twin-time-commuted", "mdtraj/formats/xyzfile.py", "        time = (stride * np.arange(len(xyz))) + initial", "        time = initial + (np.arange(len(xyz)) * stride)", None)
 V("C02", "twin-positional-args", "mdtraj/formats/netcdf.py", """        xyz, time, cell_lengths, cell_angles = self.read(
             n_frames=n_frames,
